@@ -607,4 +607,7 @@ def run(ctx):
     # shared infrastructure this property leans on (rules/families.py): each member is the same rule instance as in its home property
     from rules import families as _fam
     _fam.reader(ctx, "C14", module=True)
+    # "from target memory": the module is read from the first byte of its mapping (same rule instance as C08/reader-base)
+    from rules import c08 as _c08rb
+    _c08rb.rule_reader_base(ctx, R="C14/reader-base")
 
